@@ -113,6 +113,10 @@ struct Cfg {
     drop_vec: bool,
     /// Epilogue: drop the vector and drain every stream to its end.
     epilogue_drop: bool,
+    /// Every mutator runs inside a transaction: outside of one only `TxnBegin`
+    /// is offered (round 7, seeded C05-13: a transaction body of four
+    /// operations - set, pop_back, push_back, set - with the full alphabet).
+    txn_body: bool,
     max_len: u8,
     max_subs: u8,
     /// Property blamed for stream-content divergences in this configuration.
@@ -337,9 +341,11 @@ impl<E: El> Harness for VecH<E> {
     fn enabled(&self, cfg: &Cfg, m: &Model, out: &mut Vec<Tok>) {
         if m.alive {
             let len = m.txn_len.unwrap_or(m.len);
-            ops_for(len, cfg.max_len, cfg.alphabet, &cfg.bursts, out);
-            if cfg.oob {
-                oob_for(len, out);
+            if !(cfg.txn_body && m.txn_len.is_none()) {
+                ops_for(len, cfg.max_len, cfg.alphabet, &cfg.bursts, out);
+                if cfg.oob {
+                    oob_for(len, out);
+                }
             }
             if cfg.txn {
                 match m.txn_len {
@@ -2084,6 +2090,7 @@ fn base(prop: &'static str) -> Cfg {
         drop_sub: false,
         drop_vec: false,
         epilogue_drop: false,
+        txn_body: false,
         max_len: 4,
         max_subs: 2,
         prop,
@@ -2152,6 +2159,12 @@ fn plans(prop: &str, tier: &str) -> Vec<Plan> {
             }
             out.push(Plan { name: "c05-reduced-deep", cfgs, depth: if q { 6 } else { 7 } });
             out.push(Plan { name: "c05-tree", cfgs: tree_vec_cfgs("C05", false), depth: if q { 2 } else { 3 } });
+            // whole transaction bodies with the full alphabet: begin, four (thorough: five) operations, commit
+            let mut cfgs = Vec::new();
+            for ps in [vec![(Kind::Plain, Policy::Eager)], vec![(Kind::Batched, Policy::Eager)], vec![(Kind::Plain, Policy::Eager), (Kind::Batched, Policy::Eager)]] {
+                cfgs.extend(with_lens(Cfg { pre_subs: ps, txn: true, txn_body: true, ..base("C05") }, 0..=3));
+            }
+            out.push(Plan { name: "c05-txn-bodies", cfgs, depth: if q { 6 } else { 7 } });
         }
         "C06" => {
             for (cap, dq, dt) in [(1usize, 6usize, 7usize), (2, 6, 7), (3, 7, 8)] {
@@ -2209,6 +2222,12 @@ fn plans(prop: &str, tier: &str) -> Vec<Plan> {
                 }
             }
             out.push(Plan { name: "c07-reduced-deep", cfgs, depth: if q { 6 } else { 8 } });
+            // whole transaction bodies with the full alphabet, ended by commit, drop or rollback at every point
+            let mut cfgs = Vec::new();
+            for ps in [vec![(Kind::Plain, Policy::Eager)], vec![(Kind::Batched, Policy::Eager)]] {
+                cfgs.extend(with_lens(Cfg { pre_subs: ps, txn: true, txn_abort: true, txn_body: true, ..base("C07") }, 0..=3));
+            }
+            out.push(Plan { name: "c07-txn-bodies", cfgs, depth: if q { 6 } else { 7 } });
         }
         "C08" => {
             let mut cfgs = Vec::new();
